@@ -213,6 +213,8 @@ def plan(S, prop, mode, tier, avoid):
             c, h = draw_interval(r)
             op.update({"c": c, "h": h, "g": draw_g(r), "rev": chance(r, 0.15),
                        "rk": pick(r, ["list", "tuple", "array"])})
+            if k == "func" and chance(r, 0.08):
+                op["nty"] = pick(r, ["i8", "i4", "u2"])
             if k == "func" and chance(r, 0.12):
                 op["reenter"] = True
             elif k == "func" and chance(r, 0.14):
@@ -478,8 +480,13 @@ def execute(script, run, env):
                     else:
                         run.fault("memoised_integrand_values_handed_out_again")
                     return y
+            npts_arg = op["npts"]
+            if op.get("nty") and npts_arg is not None:
+                # the point count as a numpy integer (len() of something, an element of an integer array)
+                npts_arg = {"i8": np.int64, "i4": np.int32, "u2": np.uint16}[op["nty"]](npts_arg)
+                run.fault("point_count_given_as_a_numpy_integer")
             try:
-                got = qg.integrate(rng_arg, f_call, npts=op["npts"])
+                got = qg.integrate(rng_arg, f_call, npts=npts_arg)
             except Exception as e:
                 if judge:
                     run.fail("quad.func.raises", feats, "integrate([%r,%r], f, npts=%r) raised %r" % (a, b, op["npts"], e))
